@@ -82,3 +82,67 @@ Section RiseSpline.
     Qed.
   End Area.
 End RiseSpline.
+
+(** ---- over the exact splines of Model/SplineWrapPP.v: nothing assumed *)
+From Spowtd Require Import Model.SplineWrapPP Proofs.SplineWrapPPSpec.
+
+Section RiseExact.
+  Variables (knots values : list R) (segs : list (seg (F:=R))).
+  Hypothesis two_knots : (2 <= length knots)%nat.
+  Hypothesis knots_inc : incr_list knots.
+  Hypothesis segs_interp : interp_spec knots values segs.
+
+  Notation integ := (pp_integrate Rops knots segs).
+  Notation curve := (rise_curve Rops integ).
+
+  Lemma exact_wf :
+    segs <> [] /\ pp_sorted segs /\ pp_start segs = pp_xmin Rops knots /\
+    pp_xmin Rops knots < pp_xmax Rops knots.
+  Proof.
+    destruct knots as [|x0 [|x1 kt]]; simpl in two_knots; try lia.
+    destruct (interp_spec_wf kt x0 x1 values segs knots_inc segs_interp) as [H1 [H2 H3]].
+    repeat split; try assumption. now apply incr_list_dom.
+  Qed.
+
+  Theorem exact_curve_diff_RInt :
+    forall grid m W, curve grid m = Ok W ->
+    forall i j d, (i < length grid)%nat -> (j < length grid)%nat ->
+      nth j W d - nth i W d = RInt (pp_call Rops knots segs) (nth i grid d) (nth j grid d).
+  Proof.
+    destruct exact_wf as [Hne [Hso [Hst Hdom]]].
+    unfold pp_integrate, pp_call.
+    apply (spline_curve_diff_RInt _ _ _ _ (pp_P Rops segs) Hdom).
+    - now apply pp_splint_in.
+    - now apply pp_splint_above.
+    - now apply pp_ev_RInt.
+  Qed.
+
+  Theorem exact_curve_monotone :
+    (forall x, pp_xmin Rops knots <= x <= pp_xmax Rops knots -> 0 <= pp_eval Rops segs x) ->
+    forall grid m W, curve grid m = Ok W ->
+      (forall i j d, (i <= j)%nat -> (j < length grid)%nat -> nth i grid d <= nth j grid d) ->
+      forall i j d, (i <= j)%nat -> (j < length grid)%nat -> nth i W d <= nth j W d.
+  Proof.
+    destruct exact_wf as [Hne [Hso [Hst Hdom]]].
+    unfold pp_integrate.
+    apply (spline_curve_monotone _ _ _ _ (pp_P Rops segs) Hdom).
+    - now apply pp_splint_in.
+    - now apply pp_splint_above.
+    - now apply pp_ev_RInt.
+  Qed.
+End RiseExact.
+
+(** Order 1 with any knots and values (the shape of PeatclsmSpecificYield). *)
+Theorem linear_curve_diff_RInt :
+  forall knots values, (2 <= length knots)%nat -> incr_list knots ->
+    length values = length knots ->
+    forall grid m W,
+      rise_curve Rops (pp_integrate Rops knots (lin_pp Rops knots values)) grid m = Ok W ->
+      forall i j d, (i < length grid)%nat -> (j < length grid)%nat ->
+        nth j W d - nth i W d
+        = RInt (pp_call Rops knots (lin_pp Rops knots values)) (nth i grid d) (nth j grid d).
+Proof.
+  intros knots values Hn Hinc Hlen.
+  apply (exact_curve_diff_RInt knots values); try assumption.
+  apply lin_pp_interp_spec; [assumption|assumption|lia].
+Qed.
